@@ -827,3 +827,13 @@ Definition show_mres (r : mres schema) : string :=
   | MPanic => "panic"
   | MUnsupp => "unsupp"
   end.
+
+(* ------------------------------------------------------------------ string formats (merge_so_format)
+   [asserted f]: f is absent or one of the six string formats that validity asserts (uuid, date, date-time, ip,
+   ipv4, ipv6); [fmt_related x y]: the pairs merge_so_format does not declare unsatisfiable. *)
+Definition asserted (f : option ustring) : bool :=
+  match f with None => true | Some x => is_string_format x end.
+Definition fmt_related (x y : ustring) : bool :=
+  (ustr_eqb x f_ip && (ustr_eqb y f_ipv4 || ustr_eqb y f_ipv6))
+  || (ustr_eqb y f_ip && (ustr_eqb x f_ipv4 || ustr_eqb x f_ipv6))
+  || ustr_eqb x y.
